@@ -13,7 +13,7 @@ from hgsim.util import canon, digest
 
 ID = "C04"
 LEVEL = "exploration"
-BUDGET = {"quick": (8, 90, 45), "thorough": (16, 5000, 600)}
+BUDGET = {"quick": (8, 200, 90), "thorough": (16, 5000, 600)}
 RULE = (
     "seeded ring-loop templates: body length 1-4, route or if/else gate, exit via END or an exit node, iteration count N in 0..6, open or closed "
     "gate, gate reading the loop state directly or synchronised on a signal emitted by the last body node (do-while), self-accumulating single-node "
